@@ -163,6 +163,16 @@ def query_all(ctx, ds, tag, hist):
     ctx.count(f"datasets_queried[{tag}]")
 
 
+TEMP_FEAT = "vmon_c20_temp"
+
+
+def _ensure_temp_feature():
+    import dclab
+    import dclab.definitions as dfn
+    if not dfn.scalar_feature_exists(TEMP_FEAT):
+        dclab.register_temporary_feature(TEMP_FEAT)
+
+
 def nan_scalar(rng, n):
     from vmon.gen import dataset as gd
     r = rng.random()
@@ -301,12 +311,23 @@ def run_case(ctx, idx):
                         ch = dclab.new_dataset(ds)
                         query_all(ctx, ch, "child", hist)
                         gch = None
-                        for rep in range(int(rng.integers(1, 4))):
-                            m = rng.random(len(ds)) < rng.uniform(0.2, 1)
-                            if not m.any():
-                                m[int(rng.integers(0, len(ds)))] = True
-                            ds.filter.manual[:] = m
-                            ds.apply_filter()
+                        for rep in range(int(rng.integers(1, 5))):
+                            # what changes before the refresh: the parent's filter, the
+                            # parent's data (a temporary feature set / set again), or both
+                            what = int(rng.integers(0, 3))
+                            if what in (0, 2):
+                                m = rng.random(len(ds)) < rng.uniform(0.2, 1)
+                                if not m.any():
+                                    m[int(rng.integers(0, len(ds)))] = True
+                                ds.filter.manual[:] = m
+                                ds.apply_filter()
+                            if what in (1, 2):
+                                _ensure_temp_feature()
+                                dclab.set_temporary_feature(ds, TEMP_FEAT,
+                                                            nan_scalar(rng, len(ds)))
+                                ctx.count("parent_temporary_feature_set")
+                                if what == 1:
+                                    ctx.count("refresh_after_data_change_only")
                             if gch is None and rng.random() < 0.5:
                                 ch.rejuvenate()
                                 gch = dclab.new_dataset(ch)
